@@ -239,7 +239,7 @@ Definition h_fileop : handler := fun idx c line s =>
     let s1 := if del then set_plus_file (set_minus_file s name) dev_null
               else set_plus_file (set_minus_file s dev_null) name in
     let s2 := set_cur (set_minus_ev s1 Change) (Some (minus_file s1, plus_file s1)) in
-    if color_only c then (write_file_header idx line s2, true)
+    if color_only c then (write_file_header idx line (emit s2), true)
     else (s2, negb (opt_text_pair_eqb (handled s2) (cur s2)))
   else (s, false).
 
@@ -260,7 +260,7 @@ Definition h_minus : handler := fun idx c line s =>
     match upd with
     | Some (p, ev) =>
         let s1 := paint_buffered (set_minus_ev (set_minus_file s p) ev) in
-        if color_only c then (write_file_header idx line s1, true) else (s1, false)
+        if color_only c then (write_file_header idx line (emit s1), true) else (s1, false)
     | None => (s, false)
     end
   else (s, false).
@@ -280,7 +280,7 @@ Definition h_plus : handler := fun idx c line s =>
     | Some p =>
         let s0 := set_plus_file s p in
         let s1 := paint_buffered (set_cur s0 (Some (minus_file s0, plus_file s0))) in
-        if color_only c then (write_file_header idx line s1, true)
+        if color_only c then (write_file_header idx line (emit s1), true)
         else if negb (opt_text_pair_eqb (handled s1) (cur s1)) then
           (set_handled (write_file_header idx (describe s1) (emit s1)) (cur s1), false)
         else (s1, false)
